@@ -11,6 +11,8 @@ fn net(b: &B, x: &Bal) -> BigInt {
 
 pub fn run(rng: &mut Rng, n: usize, rep: &mut Report) {
     let one = BigInt::from(ONE);
+    // directed candidate (known finding C03-F1 = C20-F2): a venue conversion that announces one unit above the exact value
+    crate::mon_c20::conversion_above_exact("C03", rep);
     for i in 0..n {
         rep.bump("cases");
         if i % 5 == 4 {
